@@ -11,8 +11,86 @@ ASSUMPTIONS = c01.ASSUMPTIONS + [
 ]
 
 
+MATRIX_DB = {
+    # unique id; partition key k with a NULL group; order key a with ties and a NULL; value c with NULLs
+    "t1": {"cols": ["id", "k", "a", "b", "s"], "types": ["int", "int", "int", "float", "text"], "rows": []},
+    "t2": {"cols": ["id", "k", "a", "c", "s"], "types": ["int", "int", "int", "int", "text"],
+           "rows": [[1, 1, 4, 10, "x"], [2, 1, 1, None, "y"], [3, 1, 2, 7, "x"], [4, 2, 2, 5, "z"], [5, 2, 2, -3, None], [6, 2, 7, 20, "x"],
+                    [7, None, None, 1, "y"], [8, 1, 7, 2, "z"], [9, 2, None, 40, "x"], [10, 1, 3, -8, "y"]]},
+    "t3": {"cols": ["k", "d", "e"], "types": ["int", "int", "text"], "rows": []},
+}
+
+
+def frame_matrix(tier):
+    """Every window shape the documentation names x every window-capable function x sort x partition, as abstract
+    programs over MATRIX_DB: no window clause, rows / range with each combination of open, negative, zero and positive
+    bounds, rolling:n, expanding.  -> [(db, [programs])]"""
+    col = lambda n: ["col", "t2", n]
+    bounds_lo = [None, -2, -1, 0, 1]
+    bounds_hi = [None, -1, 0, 1, 2]
+    frames = [None]
+    for kind in ("rows", "range"):
+        for lo in bounds_lo:
+            for hi in bounds_hi:
+                if lo is not None and hi is not None and lo > hi:
+                    continue
+                frames.append(([kind, lo, hi], [kind, lo, hi]))
+    for n in (1, 2, 3):
+        frames.append((["rolling", n, None], ["rows", 1 - n, 0]))
+    frames.append((["expanding", None, None], ["rows", None, 0]))
+    fns = [["agg", "sum", col("c")], ["agg", "min", col("c")], ["agg", "max", col("c")], ["agg", "average", col("c")], ["agg", "count", col("c")],
+           ["win", "first", [col("c")]], ["win", "last", [col("c")]], ["win", "lag", [1, col("c")]], ["win", "lead", [1, col("c")]],
+           ["win", "rank", [col("a")]], ["win", "rank_dense", [col("a")]], ["win", "row_number", []]]
+    sorts = [None, [[False, col("id")]], [[False, col("a")]], [[True, col("a")]], [[False, col("a")], [False, col("id")]]]
+    progs = []
+    for part in (False, True):
+        for srt in sorts:
+            for fr in frames:
+                if fr is not None and fr[1][0] == "range" and srt is not None and len(srt) > 1 and (fr[1][1] not in (None, 0) or fr[1][2] not in (None, 0)):
+                    continue        # RANGE with an offset needs exactly one order key (KF-C07-7 covers the compiler's side)
+                for fn in fns:
+                    for placement in (("derive",) if tier == "quick" and fn[1] not in ("sum", "lag", "rank") else ("derive", "filter")):
+                        d = {"t": "derive", "items": [["w", fn]]}
+                        inner = []
+                        if srt is not None:
+                            inner.append({"t": "sort", "keys": srt})
+                        if fr is None:
+                            inner.append(d)
+                        else:
+                            inner.append({"t": "window", "frame_src": fr[0], "frame": fr[1], "pipe": [d]})
+                        main = [{"t": "from", "src": {"k": "table", "name": "t2"}, "alias": None},
+                                {"t": "select", "items": [[None, col("id")], [None, col("k")], [None, col("a")], [None, col("c")]]}]
+                        if part:
+                            main.append({"t": "group", "keys": [col("k")], "pipe": inner})
+                        else:
+                            main.extend(inner)
+                        if placement == "filter":
+                            main.append({"t": "filter", "cond": ["bin", ">=", ["bin", "??", ["col", None, "w"], ["lit", 0]], ["lit", 2]]})
+                        progs.append({"lets": [], "main": main, "cuts": []})
+    return [(MATRIX_DB, progs)]
+
+
+def matrix_phase(run, tier, seed):
+    from .. import core
+    groups = frame_matrix(tier)
+    progs = groups[0][1]
+    N = core.NCPU
+    kws = [dict(prop="C04", seed=seed, shard=i, n_cases=0, profile="window", props={"C01"}, fixed=[(MATRIX_DB, progs[i::N])], reduce_budget=12) for i in range(N)]
+    res = core.run_shards(relcheck.explore_shard, kws)
+    obs = relcheck.merge_obs([o for _, o in res])
+    for v, _ in res:
+        run.extend(v)
+    run.coverage["frame_matrix"] = {"programs": len(progs), "executions": obs.get("cases", 0), "judged": obs.get("judged", 0), "unspecified": obs.get("unspecified", 0),
+                                    "rejected": obs.get("rejected", 0), "engine_unsupported": obs.get("engine_unsupported", 0),
+                                    "cells": "12 functions x (no window, rows/range x 22 bound pairs, rolling 1-3, expanding) x 5 sorts x {whole relation, group k} x {derive, filter}"}
+    run.coverage["evaluations"] = run.coverage.get("evaluations", 0) + obs.get("cases", 0)
+    run.coverage["judged_against_model"] = run.coverage.get("judged_against_model", 0) + obs.get("judged", 0)
+    run.coverage["distinct_nontrivial"] = run.coverage.get("distinct_nontrivial", 0) + len(obs.get("nontrivial", []))
+
+
 def run(tier, seed):
     r = c01.explore("C04", {"C01"}, [("window", 1.0)], tier, seed, 900, 40000, ASSUMPTIONS)
+    matrix_phase(r, tier, seed)
     for v in r.violations:
         v["property"] = "C04"
     # defects of the relational core that are listed for C01 show up in window programs too
